@@ -6,7 +6,8 @@ import (
 	"github.com/glowlabs-org/gca-backend/glow"
 )
 
-func verifFinite(f float64) bool { return f == f && f-f == 0 }
+// finite: exponent bits are not all ones (pure bit test, no floating-point arithmetic)
+func verifFinite(f float64) bool { return verifF64Bits(f)>>52&0x7ff != 0x7ff }
 
 // independent layout of the authorization message
 func verifAuthorizationBytes(ea glow.EquipmentAuthorization) []byte {
